@@ -43,7 +43,8 @@ pub fn meta(id: &'static str, tier: Tier) -> CheckMeta {
             "executors are pure interpreters of the program table; values are i64 (128-bit fingerprint collisions out of scope)".into(),
             "unsupported usage is not exercised: concurrent sessions, projections over non-firewalls, querying unset inputs".into(),
         ],
-        parts: vec![PartSpec {
+        parts: {
+            let mut parts = vec![PartSpec {
             name: "native",
             nshards: 16,
             budget_s: tier.pick(300, 2400),
@@ -51,7 +52,11 @@ pub fn meta(id: &'static str, tier: Tier) -> CheckMeta {
             program: None,
             prepare: None,
             sanitizer: None,
-        }],
+        }];
+            if tier == Tier::Thorough && id == "C01" { parts.push(crate::sup::sanitizer_part("miri", 8, tier.pick(900, 2400))); }
+            if tier == Tier::Thorough && id == "C01" { parts.push(crate::sup::sanitizer_part("tsan", 8, 2400)); }
+            parts
+        },
         must_be_nonzero: vec![
             ("reexecutions", "no re-execution observed"),
             ("cutoffs", "no early cut-off observed"),
@@ -72,6 +77,21 @@ pub struct Case {
     pub prog: Arc<Program>,
     pub history: Vec<Step>,
     pub fan: u32,
+}
+
+/// A tiny case for the interpreter-speed sanitizer part (Miri).
+pub fn make_small_case(seed: u64, idx: u64) -> (Case, Rng) {
+    let mut r = Rng::new(seed).derive(idx.wrapping_mul(7919) + 77);
+    let prog = if idx % 3 == 2 {
+        let which = *r.pick(&[0u64, 1, 2, 5]);
+        gen_family(&mut r, which, 2)
+    } else {
+        let gp = GenParams { inputs: 2, xs: 1, nodes: 3 + r.below(4) as u32, max_ops: 2, p_firewall: 30, p_projection: 25, fancy_ops: true };
+        gen_program(&mut r, &gp)
+    };
+    let hp = HistParams { steps: 5 + r.usize_below(4), restarts: false, par: false, late_inputs: false };
+    let history = gen_history(&mut r, &prog, &hp);
+    (Case { prog: Arc::new(prog), history, fan: 0 }, r)
 }
 
 /// Deterministic case construction from (seed, index).
@@ -212,8 +232,11 @@ pub fn worker(ctx: &WorkerCtx, prop: &str) -> Report {
                 continue;
             }
         }
-        let (case, mut r) = make_case(ctx.seed, idx, ctx.tier, false);
-        let (cfg, spec) = pick_cfg(&mut r);
+        let (case, mut r) = if ctx.part == "miri" { make_small_case(ctx.seed, idx) } else { make_case(ctx.seed, idx, ctx.tier, false) };
+        let (mut cfg, spec) = pick_cfg(&mut r);
+        if ctx.part == "miri" {
+            cfg.rt_workers = cfg.rt_workers.min(2);
+        }
         ctx.announce(&format!("{prop} case {idx} cfg={cfg:?} nodes={} steps={}", case.prog.nodes.len(), case.history.len()));
         let (out, rec) = run_spec(&spec, &case, &cfg, None);
         let out = match out {
